@@ -1856,9 +1856,12 @@ class ArmV6:
 
     def execute_instruction(self, opcode):
         self.registers.changed_registers = [False] * 16
+        self.registers.it_state_restored = False
         self.executed_opcode = opcode
         if self.in_it_block():
             opcode.execute(self)
-            self.registers.it_advance()
+            if not self.registers.it_state_restored:
+                # an exception return loads the IT state of the interrupted code: it is not advanced again
+                self.registers.it_advance()
         else:
             opcode.execute(self)
